@@ -200,6 +200,32 @@ theorem remove_frame_items (pre : List Item) (k : Bytes) (mid vals : List Event)
       flatten (dropWsEnd pre ++ dropNlHead post) :=
   removeInternal_items pre k mid vals post hok
 
+/-- The view after `set` (DESIGN: `view (set …) = (view f).updateLast`): among the entries of the
+section, exactly the LAST one with the key changes, its raw value text becoming the escaped new
+value — which `normalize` reads as the value given (`written_value_reads_back`). -/
+theorem set_view_frame (h : Header) (w : Ws) (nl : Bytes) (key value : Bytes) (is : List Item)
+    (hok : ∀ i ∈ is, i.ok = true) (sp : KeySplit key is)
+    (hset : setBody w nl (flatten is) key value =
+      flatten (sp.pre ++ .kv sp.k sp.mid [.value (escapeValue value)] :: sp.post)) :
+    bodyEntries h (flatten is) none [] =
+      sp.pre.filterMap (itemEntry h) ++ [{ sect := h.name, sub := h.sub, key := sp.k, value := valText sp.vals }] ++
+        sp.post.filterMap (itemEntry h) ∧
+    bodyEntries h (setBody w nl (flatten is) key value) none [] =
+      sp.pre.filterMap (itemEntry h) ++ [{ sect := h.name, sub := h.sub, key := sp.k, value := escapeValue value }] ++
+        sp.post.filterMap (itemEntry h) :=
+  set_entries h w nl key value is hok sp hset
+
+/-- The view after `remove`: exactly the LAST entry with the key disappears. -/
+theorem remove_view_frame (h : Header) (pre : List Item) (k : Bytes) (mid vals : List Event) (post : List Item)
+    (hok : ∀ i ∈ pre ++ .kv k mid vals :: post, i.ok = true) :
+    bodyEntries h (flatten (pre ++ .kv k mid vals :: post)) none [] =
+      pre.filterMap (itemEntry h) ++ [{ sect := h.name, sub := h.sub, key := k, value := valText vals }] ++
+        post.filterMap (itemEntry h) ∧
+    bodyEntries h (removeInternal (flatten (pre ++ .kv k mid vals :: post)) (flatten pre).length
+        ((flatten pre).length + 1 + mid.length + vals.length) true) none [] =
+      pre.filterMap (itemEntry h) ++ post.filterMap (itemEntry h) :=
+  remove_entries h pre k mid vals post hok
+
 /-- Every body of a file loaded from text is well formed (C26's parser emits items). -/
 theorem loaded_bodies_well_formed (bs : Bytes) (f : FileS) (h : load bs = some f) :
     ∀ s ∈ f.sections, WFb s.body :=
